@@ -36,3 +36,34 @@ func init() {
 		})
 	externWrites[key+"Encode"] = []string{eCompName(types.Typ[types.Uint8], 0)}
 }
+
+// Package reflect as an opaque dependency: every result is an arbitrary well-typed value, nothing of the
+// modelled state changes, and reflect's own panics (Set with a mismatching type, Field out of range, ...)
+// are NOT modelled - what is checked in code that uses reflection is the code's own indexing, slicing and
+// arithmetic. NumField() is a non-negative function of the receiver.
+func init() {
+	numField := func(ex *Exec, fr *Frame, st *State, pc *Term, fn *ssa.Function, args []Value, pos token.Pos) (Value, *Term) {
+		var ls []*Term
+		for _, a := range args {
+			ls = append(ls, toLeaves(a)...)
+		}
+		n := App("reflect.NumField", BV64, ls...)
+		ex.assumeAlways(And(SLe(C64(0), n), SLe(n, C64(1<<20))))
+		return VBV{n}, pc
+	}
+	regExtern("reflect.Type.NumField", "reflect.Type.NumField(): a non-negative function of the receiver", numField)
+	regExtern("(reflect.Value).NumField", "reflect.Value.NumField(): a non-negative function of the receiver", numField)
+	regPrefix("reflect.Type.", "reflect.Type methods: opaque results, no effect on modelled state; reflect's own panics are not modelled", pureOpaque)
+	regPrefix("(reflect.Value).", "reflect.Value methods: opaque results, no effect on modelled state; reflect's own panics are not modelled", pureOpaque)
+	regPrefix("(reflect.StructTag).", "reflect.StructTag methods: opaque results", pureOpaque)
+	regPrefix("reflect.", "reflect functions: opaque results, no effect on modelled state", pureOpaque)
+}
+
+func init() {
+	regExtern("(reflect.Value).Type", "reflect.Value.Type(): a non-nil type descriptor (opaque)",
+		func(ex *Exec, fr *Frame, st *State, pc *Term, fn *ssa.Function, args []Value, pos token.Pos) (Value, *Term) {
+			tag := Fresh("reflect.type.tag", BV64)
+			ex.assume(pc, Not(Eq(tag, C64(0))))
+			return VIface{tag, Fresh("reflect.type.pay", BV64)}, pc
+		})
+}
